@@ -859,6 +859,9 @@ func unop(fr *frame, instr *ssa.UnOp, x value) value {
 		if p == nil {
 			i.rtPanic("invalid memory address or nil pointer dereference")
 		}
+		if i.race != nil {
+			i.raceAccess(fr, p, false, instr.Pos())
+		}
 		return load(mustDeref(instr.X.Type()), p)
 	}
 	if isSym(x) {
@@ -1015,6 +1018,9 @@ func callBuiltin(caller *frame, callpos token.Pos, fn *ssa.Builtin, args []value
 
 	case "delete": // delete(map[K]value, K)
 		m := args[0].(*omap)
+		if i.race != nil && m != nil {
+			i.raceAccess(caller, m, true, callpos)
+		}
 		m.delete(i, args[1])
 		return nil
 
